@@ -6,3 +6,39 @@ claim("C17",
   "Decides statement-for-statement agreement of the two backends: for each of the 27 command kinds the same dispatch arm, the same normalised statement (modulo the dialect table), the same operand binding, Scan targets and result construction, and equal schemas; both also satisfy the spec independently. Not decided: engine semantics that differ under identical text.",
   "sibling cross-check of normalised SQL ASTs, operand bindings, scan lists and result provenance between sqlite.go and postgres.go",
   "DESIGN.md §5 C17")
+claim("C01",
+  "Decides the code-shape premises of write-once: promises is written only by the dispatched insert (creation half, ON CONFLICT DO NOTHING) and update (completion half, guard id AND state = 1) in both backends, nothing deletes or rewrites a row; every UpdatePromise/CreatePromise command literal matches its template and is constructed only inside its atomic group; every promise object in a response is the stored record or the record with exactly the written completion half; a lost guarded write leads to a retry. Not decided: engine atomicity, the induction over commits (argued in DESIGN.md), crash points.",
+  "SQL spec comparison + table-ownership scan + command/response literal provenance templates + go/cfg walk of the 0-rows branch",
+  "DESIGN.md §5 C01")
+claim("C02",
+  "Decides the linearization MECHANISM only, not linearizability: every guarded write of every request coroutine has its row count examined and the 0-row path retries or answers without stale data; coroutine code has no goroutines/channels/package state/wall clock; all guards and command literals are as specified. No history is explored.",
+  "go/cfg walk from each guarded write's row test to every return (retry / clean response / stale response), structural confinement scan of the coroutine package",
+  "DESIGN.md §5 C02")
+claim("C04",
+  "Decides the comparator and provenance clauses: each forced time-out command is governed by state == Pending AND timeout <= now (non-strict), carries GetTimedoutState(record), empty value, nil key, CompletedOn = record.Timeout; the caller's state is installed only under now < timeout; the sweep statement is state = 1 AND timeout <= ? bound to c.Time(); no wall clock in coroutine code. Not decided: tick placement and races (reduced to C01).",
+  "command-literal templates with governing if-conditions normalised to atoms (strictness/orientation), SQL guard comparison, clock-source scan",
+  "DESIGN.md §5 C04")
+claim("C05",
+  "Decides: the completion transaction is ONE Transaction [UpdatePromise, CompleteTasks, CreateTasks, DeleteCallbacks, extra] keyed by one id with tasks created before registrations are deleted, and these kinds are constructed nowhere else; CreateTasks/DeleteCallbacks/guarded callback insert have the specified SQL and bindings; a callback is reported only when the insert affected a row; derived ids embed their operands raw. Reports two known findings (F12 stale answer after a lost guarded insert, F30 non-injective id format). Not decided: batch orders inside the engine, crashes (C06).",
+  "abstract evaluation of Transaction command lists, who-may-construct check, SQL spec comparison, 0-rows path walk, format-string injectivity rule",
+  "DESIGN.md §5 C05")
+claim("C07",
+  "Decides: task update guard (id, state mask, counter), heartbeat and complete-by-root guards, sweep predicate, in both backends; the 8 UpdateTask literals match their templates (only claim sets Claimed from {Init,Enqueued} with the request counter and lease now+ttl; complete only from {Claimed}; lease expiry bumps the counter by exactly one; nothing re-activates a finished task); 0 rows leads to a retry; claim/complete responses show what was written. Not decided: interleavings of workers.",
+  "SQL spec comparison + command-literal templates with governing conditions + 0-rows path walk",
+  "DESIGN.md §5 C07")
+claim("C08",
+  "Decides: routed promise and task are one CreatePromiseAndTask command of one transaction and the task insert is conditional on the promise insert (both backends); CompleteTasks rides in the completion group; the enqueueable statement (init, no sibling in (2,4), one per root, LIMIT); the four dispatch-cycle task updates and the dispatched message (hrefs from exactly task id and counter) match their templates. Reports known finding F13 (router error ignored). Not decided: interleavings of dispatch with claims; delivery.",
+  "Transaction command-list evaluation, must-fact dataflow on go/cfg (store write only after router success), SQL spec comparison, literal templates",
+  "DESIGN.md §5 C08")
+claim("C09",
+  "Decides the five lock statements in both backends (unique resource_id; upsert that never changes execution_id and only fires for the same execution; release keyed by resource and execution; heartbeat an UPDATE keyed by process; sweep expires_at <= ?), lease arithmetic c.Time()+ttl, clock operands, and that a 0-row acquire/release is answered without claiming the lock. Not decided: interleavings.",
+  "SQL spec comparison (incl. ON CONFLICT DO UPDATE WHERE), command-literal templates, 0-rows path walk",
+  "DESIGN.md §5 C09")
+claim("C10",
+  "Decides: due/advance statements and bindings (next_run_time <= now, ordered, limited; compare-and-set advance with last = fired occurrence), next = Next(fired occurrence, cron), promise id/timeout/param/tags provenance, first occurrence after creation, and that the advance is an extra command of the promise creation (one transaction). Not decided: cron library, catch-up counts, template engine behaviour (F8/F10/F17 are reported under C13/C20).",
+  "SQL spec comparison, command-literal templates, Transaction grouping check",
+  "DESIGN.md §5 C10")
+claim("C14",
+  "Decides: the search statements (strict cursor on unique auto-increment sort_id, LIKE on the converted pattern, state mask, every tag, newest first, LIMIT), LastSortId = sort_id of the last row, cursor present iff page full and repeating the query with SortId = &LastSortId, re-search after lazy time-outs. Not decided: completeness under concurrent writes (engine), LIKE/JSON-path semantics (F15), API-layer validation and cursor signature (planned under C13).",
+  "SQL spec comparison incl. dynamic tag filter reconstruction, result provenance classification, literal templates with governing condition",
+  "DESIGN.md §5 C14")
